@@ -164,6 +164,21 @@ def run(res, proof):
                     res.violation('second-object-created', {'history': list(hl)}, ho[-1], 'exactly one complex registered')
                 l = 'drop\th3'; hl.append(l); ho.append(iw.do(l))
                 del cobj
+                # a later life of the same complex: first presented through another rotation, under another (or an automatic)
+                # name - canonical form and hash are functions of the complex, not of its name or of the history
+                if n > 1:
+                    a3, b3 = rots[(k0 + 1) % n]
+                    l = 'mk.cplx\t0\t%s\t-\t%s\t%s' % (rng.choice(('Z', '-')), seq_handles(a3, hmap), ''.join(b3))
+                    o = iw.do(l); hl.append(l); ho.append(o)
+                    if o.startswith('ret h4 new') and 4 in iw.held:
+                        if not o.startswith('ret h4 new canon=%s/%s' % (' '.join(want_canon[0]), ''.join(want_canon[1]))):
+                            res.violation('canonical-form-not-minimal:later-life', {'history': list(hl)}, o, want)
+                        if hash(iw.held[4]) != h0:
+                            res.violation('hash-depends-on-name-or-history', {'history': list(hl)}, 'hash of the re-created complex differs from the hash of its earlier life',
+                                          'rotation-equivalent descriptions have equal hashes')
+                    elif not o.startswith('ret h4 new'):
+                        res.violation('recreation-refused', {'history': list(hl)}, o, 'ret h4 new …')
+                    l = 'drop\th4'; hl.append(l); ho.append(iw.do(l))
                 lines += hl; impl += ho
             # inequivalent descriptions over the same strands never compare equal
             if n >= 2 and len(s) <= 8 and hmap is hmap0:
@@ -194,10 +209,11 @@ def run(res, proof):
                 a, b = rots[k0]
                 hl.append('mk.cplx\t0\tX\t-\t%s\t%s' % (seq_handles(a, hmap), ''.join(b)))
                 a, b = rots[k1]
-                hl.append('mk.cplx\t%d\tX\t-\t%s\t%s' % (cls, seq_handles(a, hmap), ''.join(b)))
+                nm2 = rng.choice(('X', 'Y'))           # names are per registry: the twin may carry the same name or another one
+                hl.append('mk.cplx\t%d\t%s\t-\t%s\t%s' % (cls, nm2, seq_handles(a, hmap), ''.join(b)))
                 for k in range(n):
                     a, b = rots[k]
-                    hl.append('mk.cplx\t%d\tX\t-\t%s\t%s' % (cls, seq_handles(a, hmap), ''.join(b)))
+                    hl.append('mk.cplx\t%d\t%s\t-\t%s\t%s' % (cls, nm2, seq_handles(a, hmap), ''.join(b)))
                 hl.append('cmp\th3\th4')
                 hl.append('names')
                 ho = [iw.do(l) for l in hl]
